@@ -66,6 +66,12 @@ let run (c : string) (obs : string) : string * string * string =
     if not is64 then spec := !spec @ [ "Neg", ex (BZ.neg a); "Cmp", Some (string_of_int (BZ.compare a b));
       "Rel", Some (b2s (BZ.gt a b) ^ b2s (BZ.geq a b) ^ b2s (BZ.equal a b) ^ b2s (BZ.lt a b) ^ b2s (BZ.leq a b)) ];
     if is64 then spec := !spec @ [ "Mult", Some (BZ.to_string m) ];
+    (* Fraction{Numerator a, Denominator b}: Normalize gives 0/1 for b = 0, (-a)/(-b) for b < 0; Value = a/b truncated toward zero *)
+    spec := !spec @ [
+      "FrN", (if BZ.sign b = 0 then ex BZ.zero else if BZ.sign b < 0 then (if fits (BZ.mul a m) && fits (BZ.mul b m) then ex (BZ.neg a) else None) else ex a);
+      "FrD", (if BZ.sign b = 0 then ex m else if BZ.sign b < 0 then (if fits (BZ.mul a m) && fits (BZ.mul b m) then ex (BZ.neg b) else None) else ex b);
+      "FrV", (if BZ.sign b = 0 then ex BZ.zero
+              else if fits (BZ.mul a m) && fits (BZ.mul b m) && fits (BZ.neg a) && fits (BZ.neg b) then ex (BZ.div (BZ.mul a m) b) else None) ];
     (* integer From / As / CheckedAs *)
     let a64 = if is64 then a else (let u = BZ.erem a p64 in if BZ.geq u p63 then BZ.sub u p64 else u) in
     List.iter (fun (k, w, signed) ->
@@ -79,7 +85,10 @@ let run (c : string) (obs : string) : string * string * string =
       | Some w -> if iget k = w then None else Some ("kind=" ^ k)) !spec in
     (* floats: tolerance checks on exact rationals *)
     let fl = ref [] in
-    let xq = BQ.make a64 (BZ.of_int 1024) in
+    (* the float operand exactly as the harness built it (float64(a)/1024; float64(a) rounds beyond 2^53) *)
+    let xq = (match iget "Fv" with
+              | "?" -> BQ.make a64 (BZ.of_int 1024)
+              | h -> (try BQ.of_float (Int64.float_of_bits (Int64.of_string ("0x" ^ h))) with _ -> BQ.make a64 (BZ.of_int 1024))) in
     let chk_from name rel =
       (match iget name with
        | "?" -> ()
@@ -120,7 +129,8 @@ let run (c : string) (obs : string) : string * string * string =
             let v = f_kwrap (z_of_int w) signed za in
             [ "From_" ^ k, s (f_from_int mz v); "As_" ^ k, s (f_as_int mz (z_of_int w) signed za);
               "Chk_" ^ k, (match f_checked_as_int mz (z_of_int w) signed za with Some n -> s n | None -> "ERR") ]) kinds
-        @ [ "FromF64", iget "FromF64"; "FromF32", iget "FromF32"; "AsF64", iget "AsF64"; "AsF32", iget "AsF32" ]
+        @ [ "Fv", iget "Fv"; "FromF64", iget "FromF64"; "FromF32", iget "FromF32"; "AsF64", iget "AsF64"; "AsF32", iget "AsF32" ]
+        @ (let (fn, fd) = f_frac_norm mz za zb in [ "FrN", s fn; "FrD", s fd; "FrV", (match f_frac_value mz za zb with Some v -> s v | None -> "PANIC") ])
       end else begin
         let wa = w128_of a and wb = w128_of b in
         let t x = raw_text (bz_of_w128 x) d in
@@ -139,7 +149,8 @@ let run (c : string) (obs : string) : string * string * string =
             let back = f_from_int128 mz unsigned64 asv in
             let chk = if m_EQ back wa && (BZ.sign (bz_of_z asv) < 0) = (BZ.sign a < 0) then string_of_z asv else "ERR" in
             [ "From_" ^ k, t fr; "As_" ^ k, string_of_z asv; "Chk_" ^ k, chk ]) kinds
-        @ [ "FromF64", iget "FromF64"; "AsF64", iget "AsF64" ]
+        @ [ "Fv", iget "Fv"; "FromF64", iget "FromF64"; "AsF64", iget "AsF64" ]
+        @ (let (fn, fd) = f_frac_norm128 mz wa wb in [ "FrN", t fn; "FrD", t fd; "FrV", tr (f_frac_value128 mz wa wb) ])
       end in
     let mtext = String.concat " " (List.map (fun (k, v) -> k ^ "=" ^ v) model) in
     let cls = ty ^ (if fits (BZ.mul a b) && fits (BZ.mul a m) then "+fits" else "+overflow") in
